@@ -256,6 +256,24 @@ def it_cloned(ctx, args, ci, dt):
     return IterV([clone_val(deref(x)) for x in it.items], it.kind)
 
 
+def it_zip(ctx, args, ci, dt):
+    a = args[0]
+    b = args[1]
+    if not isinstance(b, IterV):
+        bv = deref(b)
+        mutable = False
+        if isinstance(bv, S):
+            b = it_into_iter_ref_vec(ctx, [b], ci, dt)
+        elif isinstance(bv, MapV):
+            b = IterV(map_items(ctx, bv, False), 'map')
+        elif isinstance(b, Ref):
+            b = IterV([Ref(c) for c in ctx.elems_of(bv)], 'slice')
+        else:
+            b = IterV([c.v for c in ctx.elems_of(bv)], 'vec')
+    n = min(len(a.items), len(b.items))
+    return IterV([tup(a.items[i], b.items[i]) for i in range(n)], 'zip')
+
+
 def it_collect(ctx, args, ci, dt):
     it = args[0]
     g = ci.generics
@@ -1005,6 +1023,69 @@ def hash_as_bytes(ctx, args, ci, dt):
     return Ref(Cell(d))
 
 
+# ------------------------------------------------------------------------------ chrono (date_utils::date / date_next_day)
+CHRONO_MIN = -8334601228800000      # measured natively (hooks: verif_chrono_range)
+CHRONO_MAX = 8210266876799999
+DAY_MS = 86400000
+DAYFN = z3.Function('utc_day', z3.BitVecSort(64), z3.BitVecSort(64))
+
+
+def day_exact(x):
+    """floor to UTC midnight, exact bit-vector semantics (valid on the chrono range)"""
+    return x - (x % z3.BitVecVal(DAY_MS, 64))
+
+
+def stub_date(ctx, args, ci, dt):
+    d = args[0]
+    ctx.assumptions.add('chrono: date(ms) = floor to UTC midnight for ms in [%d, %d], panic (unwrap on None) outside; boundaries measured natively' % (CHRONO_MIN, CHRONO_MAX))
+    if d.concrete:
+        if not (CHRONO_MIN <= d.v <= CHRONO_MAX):
+            raise panic('date(): DateTime::from_timestamp_millis(..).unwrap() on an out-of-range date', 'date_utils::date')
+        return Int(64, True, d.v - d.v % DAY_MS)
+    inr = z3.And(d.v >= CHRONO_MIN, d.v <= CHRONO_MAX)
+    if getattr(ctx, 'dates_in_range', False):
+        ctx.add(inr)
+    elif not ctx.branch(inr):
+        raise panic('date(): DateTime::from_timestamp_millis(..).unwrap() on an out-of-range date', 'date_utils::date')
+    ctx.day_terms.append(d.v)
+    return Int(64, True, DAYFN(d.v))
+
+
+def stub_date_next_day(ctx, args, ci, dt):
+    d = args[0]
+    if d.concrete:
+        if not (CHRONO_MIN <= d.v <= CHRONO_MAX - DAY_MS):
+            raise panic('date_next_day(): out-of-range date', 'date_utils::date_next_day')
+        return Int(64, True, d.v - d.v % DAY_MS + DAY_MS)
+    inr = z3.And(d.v >= CHRONO_MIN, d.v <= CHRONO_MAX - DAY_MS)
+    if getattr(ctx, 'dates_in_range', False):
+        ctx.add(inr)
+    elif not ctx.branch(inr):
+        raise panic('date_next_day(): out-of-range date', 'date_utils::date_next_day')
+    ctx.day_terms.append(d.v)
+    return Int(64, True, DAYFN(d.v) + DAY_MS)
+
+
+def day_axioms(ctx):
+    """exact definition of utc_day on every term it was applied to on this path"""
+    return [DAYFN(t) == day_exact(t) for t in ctx.day_terms]
+
+
+# ------------------------------------------------------------------------------ rusqlite as a may-fail no-op
+def sql_prepare(ctx, args, ci, dt):
+    ctx.assumptions.add('rusqlite: prepare/execute are no-ops that may fail (symbolic outcome); SQL effects are outside every claim')
+    if ctx.branch(ctx.fresh_bool('sql_prepare_ok')):
+        return ok(Opaque('statement'))
+    return err(Opaque('rusqlite::Error'))
+
+
+def sql_execute(ctx, args, ci, dt):
+    ctx.events.append(('sql_execute',))
+    if ctx.branch(ctx.fresh_bool('sql_execute_ok')):
+        return ok(ctx.fresh_int('sql_rows', 'usize'))
+    return err(Opaque('rusqlite::Error'))
+
+
 def m_panic(ctx, args, ci, dt):
     msg = args[0].lit.decode() if args and isinstance(args[0], S) and args[0].lit is not None else 'panic'
     raise panic(msg)
@@ -1068,7 +1149,7 @@ def install(ctx):
         M[k] = it_into_iter_ref_map
     M['<HashMap as IntoIterator>::into_iter'] = it_into_iter_map
     M['<HashSet as IntoIterator>::into_iter'] = it_into_iter_map
-    for k in ['Iter', 'IterMut', 'IntoIter', 'Rev', 'Enumerate', 'Map', 'Cloned', 'Drain', 'Values', 'Keys', 'ValuesMut', 'Peekable', 'Copied']:
+    for k in ['Iter', 'IterMut', 'IntoIter', 'Rev', 'Enumerate', 'Map', 'Cloned', 'Drain', 'Values', 'Keys', 'ValuesMut', 'Peekable', 'Copied', 'Zip', 'Filter', 'Skip', 'Take', 'Chain']:
         M['<%s as Iterator>::next' % k] = it_next
         M['<%s as IntoIterator>::into_iter' % k] = it_identity
         M['<%s as Iterator>::rev' % k] = it_rev
@@ -1082,6 +1163,7 @@ def install(ctx):
         M['<%s as Iterator>::copied' % k] = it_cloned
         M['<%s as Iterator>::collect' % k] = it_collect
         M['<%s as Iterator>::count' % k] = it_count
+        M['<%s as Iterator>::zip' % k] = it_zip
         M['<%s as DoubleEndedIterator>::next_back' % k] = it_next_back
     M['[]::iter'] = slice_iter
     M['[]::iter_mut'] = slice_iter_mut
@@ -1133,6 +1215,7 @@ def install(ctx):
     M['<str as ToString>::to_string'] = str_to_string
     M['<String as ToString>::to_string'] = str_to_string
     M['<str as ToOwned>::to_owned'] = str_to_string
+    M['<String as ToOwned>::to_owned'] = str_to_string
     M['str::to_string'] = str_to_string
     M['str::to_owned'] = str_to_string
     M['String::new'] = string_new
@@ -1204,6 +1287,13 @@ def install(ctx):
     M['Hasher::update'] = hasher_update
     M['Hasher::finalize'] = hasher_finalize
     M['Hash::as_bytes'] = hash_as_bytes
+    M['Connection::prepare_cached'] = sql_prepare
+    M['Connection::prepare'] = sql_prepare
+    M['Statement::execute'] = sql_execute
+    M['CachedStatement::execute'] = sql_execute
+    M['Connection::execute'] = sql_execute
+    M['<CachedStatement as Deref>::deref'] = into_identity
+    M['<CachedStatement as DerefMut>::deref_mut'] = into_identity
     M['panic'] = m_panic
     M['panicking::panic'] = m_panic
     M['panic_fmt'] = m_panic_fmt
@@ -1231,3 +1321,7 @@ def install(ctx):
     St['<impl SigningKey as SigningKey>::sign'] = stub_sign
     St['<Ed25519SigningKey as SigningKey>::sign'] = stub_sign
     St['bincode::serialized_size'] = stub_serialized_size
+    St['fn:date_utils::date'] = stub_date
+    St['fn:date'] = stub_date
+    St['fn:date_next_day'] = stub_date_next_day
+    St['fn:date_utils::date_next_day'] = stub_date_next_day
